@@ -168,3 +168,59 @@ Proof.
   apply (kept_general rflag fenv sol Hsol Hw).
 Qed.
 End Transport.
+
+(** * Non-Hermitian mode: transport of the defining conditions [similarity_gauge]
+
+    No adjoint is involved, so the map only has to preserve the ring structure, the selection
+    and the filtration ([SGHom]); with Alg/UniqueNH.v the outputs of the non-Hermitian algorithm
+    correspond (in the domain of validity of its similarity theorems, [H_0, S x] = 0). *)
+From PV.Alg Require Import UniqueNH NonHerm.
+Section TransportNH.
+Context {T : Type} {r0 r1 : T} {add mul sub : T -> T -> T} {opp : T -> T} {req : T -> T -> Prop}
+        {Ro : @Ring_ops T r0 r1 add mul sub opp req} {Rg : @Ring T r0 r1 add mul sub opp req Ro}
+        {BA : BlockAlg T}.
+Context {T' : Type} {r0' r1' : T'} {add' mul' sub' : T' -> T' -> T'} {opp' : T' -> T'} {req' : T' -> T' -> Prop}
+        {Ro' : @Ring_ops T' r0' r1' add' mul' sub' opp' req'} {Rg' : @Ring T' r0' r1' add' mul' sub' opp' req' Ro'}
+        {BA' : BlockAlg T'}.
+Variable phi : T -> T'.
+
+Record SGHom : Prop := {
+  sg_P : Proper (_==_ ==> _==_) phi;
+  sg_zero : phi 0 == 0;
+  sg_one : phi 1 == 1;
+  sg_sub : forall x y, phi (x - y) == phi x - phi y;
+  sg_mul : forall x y, phi (x * y) == phi x * phi y;
+  sg_Sel : forall x, phi (Sel x) == Sel (phi x);
+  sg_ord : forall k x, ord k x -> ord k (phi x)
+}.
+Hypothesis HS : SGHom.
+
+Theorem similarity_gauge_transport H U Ui :
+  similarity_gauge H U Ui -> similarity_gauge (phi H) (phi U) (phi Ui).
+Proof.
+  destruct HS as [hP h0 h1 hsub hmul hsel hord].
+  intros (a & b & c & d & e). unfold similarity_gauge. repeat split.
+  - rewrite <- h1, <- hsub. apply hord. exact a.
+  - rewrite <- h1, <- hsub. apply hord. exact b.
+  - rewrite <- hmul, c. exact h1.
+  - unfold Rp. rewrite <- !hmul, <- hsel, <- hsub. unfold Rp in d. rewrite d. exact h0.
+  - rewrite <- hsub, <- hsel, e. exact h0.
+Qed.
+
+(* uniqueness in the target algebra then identifies the transported pair with the computed one *)
+Variable H' : T'.
+Hypothesis S_adH0' : forall x, Sel (comm (Zc H') x) == comm (Zc H') (Sel x).
+Variable sylv' : T' -> T'.
+Hypothesis sylv_ord' : forall k y, ord k y -> ord k (sylv' y).
+Hypothesis sylv_left' : forall x, Rp (sylv' (comm (Zc H') (Rp x))) == Rp x.
+
+Theorem transport_nh H U Ui U' Ui' :
+  H' == phi H -> similarity_gauge H U Ui -> similarity_gauge H' U' Ui' ->
+  U' == phi U /\ Ui' == phi Ui.
+Proof.
+  intros EH L L'. apply similarity_gauge_transport in L.
+  assert (L2 : similarity_gauge H' (phi U) (phi Ui)).
+  { destruct L as (a & b & c & d & e). unfold similarity_gauge. rewrite EH. repeat split; assumption. }
+  exact (@similarity_unique T' _ _ _ _ _ _ _ _ _ BA' H' S_adH0' sylv' sylv_ord' sylv_left' _ _ _ _ L' L2).
+Qed.
+End TransportNH.
